@@ -464,6 +464,7 @@ fn corpus_range(args: &[String]) {
         cfg.syntax = syntax_of(syntax);
         let Ok(ast) = full_moon::parse_fallible(&src, cfg.syntax.into()).into_result() else { continue };
         files += 1;
+        let (ti_range, ci_range) = normal_form(ast.clone());
         // (start, end, the leading trivia of the statement's first token hold a comment)
         let mut spans: Vec<(usize, usize, bool)> = vec![];
         let has_comment = |t: Vec<&Token>| t.iter().any(|x| !matches!(x.token_type(), TokenType::Whitespace { .. }));
@@ -505,6 +506,25 @@ fn corpus_range(args: &[String]) {
             let res = std::panic::catch_unwind(|| format_code(&src, cfg, range, OutputVerification::None));
             let out = match res { Err(_) => { failures.push(json!({"file": path, "range": [a, b], "kind": "panic", "detail": "formatter panicked"})); continue }
                                   Ok(Err(e)) => { failures.push(json!({"file": path, "range": [a, b], "kind": "error", "detail": e.to_string()})); continue } Ok(Ok(o)) => o };
+            // whatever the range: the output parses, means the same and has the same comments (C01 / C02 / C03 under range formatting)
+            match full_moon::parse_fallible(&out, cfg.syntax.into()).into_result() {
+                Err(errs) => { failures.push(json!({"file": path, "range": [a, b], "kind": "parse", "detail": errs.iter().map(|e| e.to_string()).collect::<Vec<_>>().join("; ")})); continue }
+                Ok(o) => {
+                    let (to, co) = normal_form(o);
+                    let loose = |v: &Vec<String>| -> Vec<String> { v.iter().filter(|t| !matches!(t.as_str(), "(" | ")" | ",")).cloned().collect() };
+                    let same = if syntax == "luau" { loose(&ti_range) == loose(&to) } else { ti_range == to };
+                    if !cfg.sort_requires.enabled && !same {
+                        let k = ti_range.iter().zip(to.iter()).position(|(x, y)| x != y).unwrap_or(ti_range.len().min(to.len()));
+                        failures.push(json!({"file": path, "range": [a, b], "kind": "tree", "detail": format!("token {}: input …{} / output …{}", k, ti_range[k.saturating_sub(4)..(k + 4).min(ti_range.len())].join(" "), to[k.saturating_sub(4)..(k + 4).min(to.len())].join(" "))}));
+                        continue
+                    }
+                    let mut x = ci_range.clone(); x.sort(); let mut y = co.clone(); y.sort();
+                    if x != y {
+                        failures.push(json!({"file": path, "range": [a, b], "kind": "comments", "detail": format!("{} comments in the input, {} in the output", x.len(), y.len())}));
+                        continue
+                    }
+                }
+            }
             // the leading trivia of the statement (blank lines, indentation in front of it) and the rest of its last line (trailing
             // trivia) belong to the statement and may be reformatted: blank lines in front of it are kept (capped at one)
             let (pre, post) = (&src[..a], &src[b..]);
